@@ -393,7 +393,31 @@ theorem exec_unfired (op : Op) (kv : KVS) (φ : Faults)
         · rename_i heq
           cases heq
           exact h
-    rw [withTx_unfired false _ (prop_body likeFn fnFam _) (unif_body likeFn fnFam _) φ kv key]
+    rw [withTx_unfired false _ (prop_body likeFn fnFam _) (unif_body likeFn fnFam _) φ kv key] at h ⊢
+    generalize withTx false (Op.body likeFn fnFam (.hasCollection c)) noFault kv = r1 at h ⊢
+    obtain ⟨o1, s1, f1, t1⟩ := r1
+    cases o1 with
+    | err e => rfl
+    | ok out =>
+      cases out with
+      | bool b =>
+        cases b with
+        | false => rfl
+        | true =>
+          simp only at h ⊢
+          have h2 : (withTx false (Op.body likeFn fnFam (.findAll { coll := c })) (fun n => φ (n + 2)) kv).2.2.1 = false := by
+            revert h
+            cases withTx false (Op.body likeFn fnFam (.findAll { coll := c })) (fun n => φ (n + 2)) kv with
+            | mk r rest =>
+              obtain ⟨s, f2, t2⟩ := rest
+              intro h
+              split at h <;>
+              first
+              | (rename_i heq; cases heq; simp only [Bool.or_eq_false_iff] at h; exact h.2)
+              | (rename_i heq _; cases heq; simp only [Bool.or_eq_false_iff] at h; exact h.2)
+          rw [withTx_unfired false _ (prop_body likeFn fnFam _) (unif_body likeFn fnFam _) (fun n => φ (n + 2)) kv h2]
+          rfl
+      | _ => rfl
   all_goals
     simp only [Op.exec] at h ⊢
     exact withTx_unfired _ _ (prop_body likeFn fnFam _) (unif_body likeFn fnFam _) φ _ h
